@@ -95,6 +95,7 @@ func VModifyExchange(id int64, dn string, op int64, typ string, vals []string) *
 
 // VSearchExchange: the request's filter text is set directly (its text is go-ldap's).
 func VSearchExchange(id int64, base string, filter string) *VExchange {
+	vSummarise("filterOK") // the fixed present-filter below is well formed
 	opp := refApp(ApplicationSearchRequest, refOctet(base), refEnum(2), refEnum(0), refInt(0), refInt(0), refBool(false), refCtxPrim(7, "objectClass"), refSeq())
 	x := vExchange(refEnvelope(id, opp, nil))
 	x.Req.message.(*SearchMessage).Filter = filter
